@@ -427,6 +427,15 @@ def _work(job):
     root = _repo_root()
     import time
     t0 = time.time()
+    try:            # persistent XLA compilation cache for the eager references (pure speed-up; keyed by HLO and jaxlib version)
+        import jax
+        cache = os.path.join(os.path.dirname(HERE), ".work", "c16m_xla_cache")
+        os.makedirs(cache, exist_ok=True)
+        jax.config.update("jax_compilation_cache_dir", cache)
+        jax.config.update("jax_persistent_cache_min_compile_time_secs", 0.0)
+        jax.config.update("jax_persistent_cache_min_entry_size_bytes", -1)
+    except Exception:  # noqa
+        pass
     sts = [_phase_eager(n, n_draws, seed) for n in names]          # every eager reference first
     t1 = time.time()
     out = []
@@ -442,7 +451,7 @@ def _work(job):
 
 def run_matrix(names, n_draws, seed, procs=None):
     from multiprocessing import get_context
-    procs = procs or max(2, min(12, (os.cpu_count() or 4) * 3 // 4))
+    procs = procs or 4
     procs = min(procs, max(1, len(names)))
     pp = os.environ.get("PYTHONPATH", "")
     if HERE not in pp.split(":"):
@@ -485,7 +494,7 @@ def sweep_guard_matrix(ctx, tier=None):
             if not m:
                 unresolved.append(f"{group}: {pat}")
             declared.update(m)
-    res = run_matrix(names, 2 if tier == "quick" else 4, ctx.seed)
+    res = run_matrix(names, 2 if tier == "quick" else 4, ctx.seed, procs=4 if tier == "quick" else 8)
     line_to_site = {}
     for i, g in enumerate(inv):
         for ln in range(g["line"], g["end_line"] + 1):
